@@ -1169,8 +1169,11 @@ impl Prop for C33 {
     }
 
     fn gen(&self, rng: &mut Rng, n: usize, tier: Tier, out: &mut Vec<String>) {
-        for _ in 0..n {
-            if rng.chance(1, 250) {
+        // exactly one HasSubtype-cycle case per run (plus a few in the thorough tier): on a source
+        // without the visited set each of them costs a watchdog timeout and a process restart
+        let cycle_at = if n >= 20 { rng.below(n as u64) as usize } else { usize::MAX };
+        for case_no in 0..n {
+            if case_no == cycle_at || (tier == Tier::Thorough && rng.chance(1, 3000)) {
                 subtype_cycle_case(rng, out);
                 continue;
             }
